@@ -50,7 +50,7 @@ def record(args, ctx):
             trace.append({"op": "observe", "k": k})
             continue
         p = rng.choice(params)
-        v = rng.choice([1, 2, 3] if p in ("P_models", "B_models", "L_models") else [1, 2])
+        v = rng.choice([1, 2, 3] if p in ("P_models", "B_models", "L_models") else [1] if p in S.REPOINT else [1, 2])
         del _LOG[:]
         try:
             S.apply(sc, {"op": "set", "p": p, "v": v})
